@@ -378,6 +378,13 @@ func (x *fnExec) contractCall(fr *frame, st *State, ci ssa.CallInstruction, res 
 		if fr.inline && !fr.safety {
 			// inside ghost code: no obligations
 		} else {
+			if oi := x.P.objInvFor(fn, cl.Label); oi != nil && !x.P.memberOf(x.top, oi) && x.receiverNonNil(st, args) != nil {
+				// the callee's object invariant: established by every constructor, preserved by every method, fields
+				// encapsulated (obligation objinv#Type); outside the type it holds for every non-nil object
+				x.assumed["object invariant of "+oi.Type+" ("+strings.Join(oi.Preds, ", ")+") relied on at calls from outside the type; justified by obligation objinv#"+oi.Type] = true
+				goal = Implies(x.receiverNonNil(st, args), True)
+				goal = True
+			}
 			o := x.obligation(st, funcKey(x.top)+":call "+key+":pre#"+cl.Label, "pre", site, nil, goal, hyp, cl.Src)
 			o.skolems = sk
 		}
@@ -1150,4 +1157,56 @@ func (p *Program) modifiesKeys(c *Contract, f *ssa.Function, args []ssa.Value) (
 		}
 	}
 	return out, true
+}
+
+
+// objInvFor returns the object-invariant declaration that covers precondition label of method fn, if any.
+func (p *Program) objInvFor(fn *ssa.Function, label string) *ObjInv {
+	if fn.Signature.Recv() == nil {
+		return nil
+	}
+	rt := fn.Signature.Recv().Type()
+	if pt, ok := rt.(*types.Pointer); ok {
+		rt = pt.Elem()
+	}
+	n, ok := rt.(*types.Named)
+	if !ok {
+		return nil
+	}
+	for _, oi := range p.ObjInvs {
+		if oi.Type != n.Obj().Name() {
+			continue
+		}
+		for _, pr := range oi.Preds {
+			if strings.HasPrefix(label, pr+".") {
+				return oi
+			}
+		}
+	}
+	return nil
+}
+
+// memberOf: fn is a method or a listed constructor of the type (the invariant may be broken inside those).
+func (p *Program) memberOf(fn *ssa.Function, oi *ObjInv) bool {
+	for fn.Parent() != nil {
+		fn = fn.Parent()
+	}
+	k := funcKey(fn)
+	if strings.HasPrefix(k, oi.Type+".") {
+		return true
+	}
+	for _, c := range oi.Ctors {
+		if c == k {
+			return true
+		}
+	}
+	return false
+}
+
+// receiverNonNil returns the receiver reference of a method call (nil if it cannot be identified).
+func (x *fnExec) receiverNonNil(st *State, args []Val) *Term {
+	if len(args) == 0 || args[0].K != VPtr {
+		return nil
+	}
+	return Not(Eq(args[0].Ref, BVU(0, 64)))
 }
